@@ -236,6 +236,44 @@ def coq_items(forest, counter):
     return clist(parts, lambda x: x, "item")
 
 
+def coq_marker(m):
+    return clist([cnat(ord(ch)) for ch in m], lambda x: x, "nat")
+
+
+def coq_lnode(n):
+    if n[0] == "LIST":
+        return "LL %s %s" % (coq_marker(n[1]), clist([coq_lnode(x) for x in n[2]], lambda x: x, "lnode"))
+    return "LI %s %s %s" % (coq_marker(n[1]), cnat(max(n[2], 0)), clist([coq_lnode(x) for x in n[3]], lambda x: x, "lnode"))
+
+
+def coq_forest(f):
+    return clist([coq_lnode(x) for x in f], lambda x: x, "lnode")
+
+
+def well_shaped(n):
+    if n[0] == "LIST":
+        return all(x[0] == "ITEM" and well_shaped(x) for x in n[2])
+    if n[0] == "ITEM":
+        return all(x[0] == "LIST" and well_shaped(x) for x in n[3])
+    return False
+
+
+def collect_lists(forest):
+    """all LIST nodes of the abstract tree in document order (they are siblings when the list lines form one block)"""
+    out = []
+    for it in forest:
+        if it[0] == "LIST":
+            if not well_shaped(it):
+                return None
+            out.append(it)
+        elif it[0] == "S":
+            sub = collect_lists(it[3])
+            if sub is None:
+                return None
+            out += sub
+    return out
+
+
 def has_lists(forest):
     return any(it[0] == "LIST" or (it[0] == "S" and has_lists(it[3])) for it in forest)
 
@@ -246,12 +284,14 @@ def run(run):
                 "(thorough), exhaustive list-marker sequences (depth<=3) to 2 / 3 lines, random documents to 12 blocks; "
                 "non-trivial = at least two headings or two list lines; distinct by JSON hash")
     run.trusted = [
-        "Coq 8.16.1 kernel; vm_compute to evaluate Model.Nest.parse on the block sequences",
+        "Coq 8.16.1 kernel; vm_compute to evaluate Model.Nest.parse and Model.Lists.parse on the block sequences",
         "axioms: none",
         "model coq/Model/Nest.v (stack machine shaped like subtitle_start_fn/hline_fn) tied to parser.py by comparing the "
         "section/rule/paragraph structure of real parse trees with the model's tree; the tokenizer and the inline handlers are "
         "glue under the diff",
-        "list nesting is decided by the reference in harness/c02.py (from the property text), not yet by a Coq theorem",
+        "model coq/Model/Lists.v (machine shaped like list_fn + pop_until_nth_list) tied to parser.py by comparing the list forest "
+        "of real parse trees with the model's forest for every document whose list lines form one block; the interleaving of "
+        "list blocks with other content is decided by the reference in harness/c02.py",
     ]
     run.prove()
     rng = run.rng
@@ -290,6 +330,26 @@ def run(run):
                 blks.append(coq_blk(b, hr[0]))
             coq_cases.append("(%s, %s)" % (clist(blks, lambda x: x, "blk"), coq_items(got, [0])))
             idx.append(i)
+    # list machine (Model/Lists.v) against the real list forest, for documents whose list lines form one block
+    lcases, lidx = [], []
+    for i, (d, t, o) in enumerate(zip(docs, texts, outs)):
+        pos = [k for k, b in enumerate(d) if b[0] == "LI"]
+        if not pos or pos[-1] - pos[0] + 1 != len(pos) or "raised" in o:
+            continue
+        got = collect_lists(abstract(o["tree"].get("c", [])))
+        if got is None:
+            continue            # stray content inside the lists: reported by the oracle above
+        lines = [b for b in d if b[0] == "LI"]
+        lcases.append("(%s, %s)" % (clist(["(%s, %s)" % (coq_marker(b[1]), cnat(b[2])) for b in lines], lambda x: x, "marker * nat"),
+                                    coq_forest(got)))
+        lidx.append(i)
+    bad, errs = lib.coq_eval_failing("c02l", ["Model.Lists"], "list (marker * nat) * list lnode", lcases,
+                                     "fun '(d, t) => forest_eqb 50 (parse d) t", chunk=300)
+    for e in errs:
+        run.correspondence_break("model evaluation failed (lists)", None, error=e)
+    for b in bad:
+        run.correspondence_break("Model.Lists.parse disagrees with the parser's list structure", texts[lidx[b]])
+    run.extra["list_blocks_validated_against_impl"] = len(lcases)
     bad, errs = lib.coq_eval_failing("c02", ["Model.Nest"], "list blk * list item", coq_cases,
                                      "fun '(d, t) => items_eqb 50 (parse d) t")
     for e in errs:
